@@ -31,6 +31,8 @@ import (
 	"fmt"
 	"math"
 	"math/big"
+	"os"
+	"os/exec"
 	"sort"
 	"strings"
 	"testing"
@@ -876,5 +878,55 @@ func TestC12(t *testing.T) {
 	}
 	sort.Strings(cl)
 	rep.Extra["verdict_classes"] = cl
+	// "a responder charges exactly the premium of its configured rate for that peer": which rate the real
+	// premium.Setting hands out after any sequence of rate operations and lookups is explored by C27's
+	// operation-sequence search; a wrong effective rate is a wrong premium in the agreement
+	rv, rcov := c12Rates()
+	rep.Violations = append(rep.Violations, rv...)
+	if l, ok := rcov["internal"].([]string); ok {
+		rep.Internal = append(rep.Internal, l...)
+		delete(rcov, "internal")
+	}
+	for k, v := range rcov {
+		rep.Extra[k] = v
+	}
 	finishEnum(t, &rep)
+}
+
+func c12Rates() ([]mc.Violation, map[string]any) {
+	out := fmt.Sprintf("%s/c12r-%d.json", workDir, os.Getpid())
+	cmd := exec.Command(os.Args[0], "-test.run", "^TestC27$", "-test.timeout", "0")
+	cmd.Env = append(os.Environ(), "VERIF_C27_EXPORT="+out)
+	ob, err := cmd.CombinedOutput()
+	b, rerr := os.ReadFile(out)
+	cov := map[string]any{}
+	if rerr != nil {
+		cov["internal"] = []string{fmt.Sprintf("c12 rate sub-check failed: %v\n%s", err, tail(string(ob), 3000))}
+		return nil, cov
+	}
+	_ = os.Remove(out)
+	var rep struct {
+		Violations []mc.Violation `json:"violations"`
+		States     int            `json:"states"`
+		Executions int            `json:"executions"`
+		Internal   []string       `json:"internal"`
+		Exhaustive bool           `json:"exhaustive"`
+	}
+	_ = json.Unmarshal(b, &rep)
+	var vs []mc.Violation
+	seen := map[string]bool{}
+	for _, v := range rep.Violations {
+		if strings.HasPrefix(v.Key, "getrate_mismatch") || strings.HasPrefix(v.Key, "premium_not_from_effective_rate") || strings.HasPrefix(v.Key, "compute_mismatch") {
+			k := "responder_premium_not_from_configured_rate:" + v.Key
+			if !seen[k] {
+				seen[k] = true
+				vs = append(vs, mc.Violation{Property: "C12", Key: k, Detail: v.Detail})
+			}
+		}
+	}
+	if len(rep.Internal) > 0 {
+		cov["internal"] = rep.Internal
+	}
+	cov["rate_subcheck"] = map[string]any{"rule": "operation sequences on the real premium.Setting (SetRate / DeleteRate / SetDefaultRate / lookup / reopen, see C27) followed by GetRate and Compute for every (peer, asset, direction) against the persistent-map reference", "states": rep.States, "executions": rep.Executions, "exhaustive": rep.Exhaustive}
+	return vs, cov
 }
